@@ -324,8 +324,9 @@ def special_bytes(I):
     return sorted(lits)
 
 
-def random_input(m, rng, maxlen=24, special=()):
-    """random walk over the exported graph (conditions ignored): mostly-accepted inputs; bytes that occur as
+def random_input(m, rng, maxlen=24, special=(), clean=False):
+    """random walk over the exported graph (conditions ignored): mostly-accepted inputs (clean: only non-error
+    transitions, no stray bytes - long walks that get deep into the machine); bytes that occur as
     literals in the program's conditions are preferred when a transition admits them"""
     q = m["start"]
     out = []
@@ -340,7 +341,7 @@ def random_input(m, rng, maxlen=24, special=()):
             break
         # prefer non-error transitions
         good = [t for t in trs if not t["err"]] or trs
-        if st["kind"] == "normal" and rng.random() < 0.12:
+        if st["kind"] == "normal" and not clean and rng.random() < 0.12:
             # a byte right next to the end of a run of byte values of some transition (off-by-one in range tests)
             cand = set()
             for t2 in trs:
@@ -358,10 +359,10 @@ def random_input(m, rng, maxlen=24, special=()):
                     out.append(b)
                     q = tsel[0]["tgt"]
                     continue
-        t = rng.choice(good if rng.random() < 0.85 else trs)
+        t = rng.choice(good if clean or rng.random() < 0.85 else trs)
         if st["kind"] == "normal" and not t["fall"]:
             bs = [b for b in t["on"] if b < 256]
-            if not bs:
+            if not bs or (257 in t["on"] and rng.random() < 0.4):     # (a transition may list bytes next to Else)
                 if 257 in t["on"]:
                     used = set(b for t2 in trs for b in t2["on"])
                     bs = [b for b in (list(range(97, 123)) + [32, 48, 0, 255]) if b not in used] or [rng.randrange(256)]
@@ -371,7 +372,7 @@ def random_input(m, rng, maxlen=24, special=()):
             out.append(rng.choice(sp) if sp and rng.random() < 0.5 else rng.choice(bs))
         gt = export_goto_targets(t["acts"])
         q = rng.choice(gt) if gt and rng.random() < 0.1 else t["tgt"]
-    if rng.random() < 0.3:
+    if not clean and rng.random() < 0.3:
         out.append(rng.randrange(256))
     return out
 
